@@ -8,6 +8,8 @@
 (*          pool.put(e)                                                    *)
 (*   dict   ... pool.get(e), pool.get(d), pool.put(d), w.write ...         *)
 (*   arr    ... pool.get(e), apool.get(a), apool.put(a), w.write ...       *)
+(*   carr   the same through a user LogArrayMarshaler; obj: user object    *)
+(*          marshaler, fields appended in place                            *)
 (*   big    as flat but the buffer grew beyond 64 KiB: never put back      *)
 (* Invariants: SingleOwner (an object is in a pool or owned by exactly one *)
 (* goroutine), StableDuringWrite (the object handed to the writer is not   *)
@@ -23,6 +25,11 @@ Ops(shape) ==
   CASE shape = "flat" -> <<"get">> \o w \o <<"put">>
     [] shape = "dict" -> <<"get", "get", "put">> \o w \o <<"put">>
     [] shape = "arr"  -> <<"get", "aget", "aput">> \o w \o <<"put">>
+    \* Event.Array with a user LogArrayMarshaler: the temporary Arr() is taken and returned inside the call
+    \* ("user": a scheduling point inside the user's marshaler - it may block or be preempted there)
+    [] shape = "carr" -> <<"get", "aget", "user", "aput">> \o w \o <<"put">>
+    \* Event.Object / EmbedObject with a user marshaler: fields are appended in place, no extra pooled object
+    [] shape = "obj"  -> <<"get", "user">> \o w \o <<"put">>
     \* the oversized buffer is dropped (no Put, hence no gate) in the step that leaves the writer / the mutex
     [] shape = "big"  -> <<"get">> \o (IF Sync THEN <<"lock", "write", "unlockdrop">> ELSE <<"writedrop">>)
 
@@ -56,6 +63,7 @@ Do(g) ==
           [] o = "aput" -> apool' = Push(apool, Head(held[g])) /\ held' = [held EXCEPT ![g] = Tail(@)] /\ UNCHANGED <<pool, nextId, mu, inwrite>>
           [] o = "writedrop" -> held' = [held EXCEPT ![g] = Tail(@)] /\ inwrite' = [inwrite EXCEPT ![g] = 0] /\ UNCHANGED <<pool, apool, nextId, mu>>
           [] o = "unlockdrop" -> held' = [held EXCEPT ![g] = Tail(@)] /\ mu' = 0 /\ UNCHANGED <<pool, apool, nextId, inwrite>>
+          [] o = "user" -> UNCHANGED <<pool, apool, nextId, held, mu, inwrite>>
           [] o = "lock" -> mu = 0 /\ mu' = g /\ UNCHANGED <<pool, apool, nextId, held, inwrite>>
           [] o = "unlock" -> mu' = 0 /\ UNCHANGED <<pool, apool, nextId, held, inwrite>>
           \* the gate inside the destination's Write: entered when the previous step ran on, left here
